@@ -83,6 +83,7 @@ type CpSpec struct {
 	Branch     int        `json:"branch"`           // -1: the branch the witness currently holds
 	Size       SizeSpec   `json:"size"`
 	MinSize    uint64     `json:"min_size,omitempty"` // resolved size is at least this
+	NonCanon   int        `json:"non_canon,omitempty"` // 1: leading zeros in the size; 2: spare bits set in the root's base64; 3: both
 	Root       string     `json:"root,omitempty"` // "" real | rand | odd0 | odd5 | odd31 | odd33
 	RootTag    int        `json:"root_tag,omitempty"`
 	Origin     int        `json:"origin"` // -1 own, i>=0 origin of log i, -2 literal
@@ -658,6 +659,9 @@ func (e *Env) Resolve(idx int, op Op, held Held) Req {
 			e.trees[origin+"\x00"+treeKey(size, root)] = br
 		}
 		text := CheckpointText(origin, size, root, cs.Ext)
+		if cs.NonCanon != 0 {
+			text = nonCanonical(text, cs.NonCanon)
+		}
 		r.CpText, r.CpSize, r.CpRoot = text, size, root
 
 		// log signature line
@@ -797,6 +801,27 @@ func (e *Env) Resolve(idx int, op Op, held Held) Req {
 	}
 	r.Proof = mangleProof(base, ps, e)
 	return r
+}
+
+// nonCanonical rewrites the size and/or root line of a checkpoint text into another
+// spelling of the same values that the checkpoint parser accepts: leading zeros on the
+// size, and the two spare bits of a 32-byte root's last base64 quantum set.
+func nonCanonical(text string, kind int) string {
+	lines := strings.SplitN(text, "\n", 4)
+	if len(lines) < 4 {
+		return text
+	}
+	if kind&1 != 0 {
+		lines[1] = "00" + lines[1]
+	}
+	if kind&2 != 0 && strings.HasSuffix(lines[2], "=") && !strings.HasSuffix(lines[2], "==") && len(lines[2]) >= 2 {
+		const alpha = "ABCDEFGHIJKLMNOPQRSTUVWXYZabcdefghijklmnopqrstuvwxyz0123456789+/"
+		i := len(lines[2]) - 2
+		if v := strings.IndexByte(alpha, lines[2][i]); v >= 0 && v%4 == 0 {
+			lines[2] = lines[2][:i] + string(alpha[v+1]) + "="
+		}
+	}
+	return strings.Join(lines, "\n")
 }
 
 // noteTextOK reports whether text can be the text of a note (valid UTF-8 handled by
@@ -1105,9 +1130,14 @@ func (e *Env) Exec(t Target, o RunOpts) ([]*Step, error) {
 					lines = append(lines, wk.K.SigLine(text))
 				}
 			}
-			if err := pl.Plant(st.Req.LogID, Note(text, lines...)); err != nil {
+			planted := Note(text, lines...)
+			if err := pl.Plant(st.Req.LogID, planted); err != nil {
 				return steps, fmt.Errorf("harness: plant failed: %v", err)
 			}
+			for len(e.outs) <= i {
+				e.outs = append(e.outs, nil)
+			}
+			e.outs[i] = planted // so that a later op can replay exactly the stored bytes
 			st.Verdict = "planted"
 			steps = append(steps, st)
 			continue
